@@ -535,6 +535,11 @@ def generate():
     nodemaker_part(out)
     dirnode_pins = simple_pins("src/allmydata/dirnode.py", ["_pack_normalized_children", "DirectoryNode._unpack_contents",
                                                             "DirectoryNode._create_and_validate_node", "DirectoryNode._pack_contents"])
+    prohibited_pins = simple_pins("src/allmydata/blacklist.py", ["ProhibitedNode." + m for m in (
+        "get_cap", "get_readcap", "get_uri", "get_write_uri", "get_readonly_uri", "is_readonly", "is_mutable", "is_unknown",
+        "is_allowed_in_immutable_directory", "raise_error", "get_verify_cap", "get_storage_index")])
+    out.append("\n(* blacklist.py: ProhibitedNode hands every cap accessor through to the wrapped node (the models treat it as transparent) *)")
+    out.append("Definition prohibited_code_pins : list (string * string) := %s." % coq_list(prohibited_pins, per_line=True))
     out.append("\n(* dirnode.py: how a child's caps are written and read back (Model/UriNodes.v dir_store_read) *)")
     out.append("Definition dirnode_code_pins : list (string * string) := %s." % coq_list(dirnode_pins, per_line=True))
     out.append("\n(* pins (SHA-256 prefix of the normalised source text; identity methods as text) of the definitions the hand-written models were written for *)")
